@@ -33,44 +33,51 @@ Definition h_derive (fc : chr -> str) (k : rcase) (h0 : heap) (Cs : list hconv) 
   | _, _, _ => Raise EOther
   end.
 
+(* the observation of the model: [code; per step (the derivation, then every follow-up) one flag per input: records unchanged?;
+   does the result hold a cell of an input?] *)
+Definition model_hobs (k : rcase) (cs : list conv) (fol : list (record * bool * bool)) (is_discover : bool) : val :=
+  let fc := fold_of (rc_fold k) in
+  (* the records of each input in the order its converter holds them *)
+  let ins' := map recs cs in
+  let h0 := concat ins' in
+  let Cs := layout ins' 0 in
+  let flags := fun h => VList (map (fun C => vbool (records_eqb (view h C) (view h0 C))) Cs) in
+  if is_discover then
+    (* discover only reads its converter and creates new records: every follow-up works on fresh cells *)
+    let res := fold_left (fun acc op => let hr := follow_step fc (fst acc) op in (hr, snd acc ++ [flags (fst hr)]))
+                         fol ((h0, []), [flags h0]) in
+    VList [VInt 0; VList (snd res); VInt 0]
+  else
+    match h_derive fc k h0 Cs cs with
+    | Raise e => VList [VInt (derive_code (@Raise conv e)); VList [flags h0]; VInt 0]
+    | Val (h1, R) =>
+        match mk_conv true [58%N] (view h1 R) with
+        | Raise e => VList [VInt (derive_code (@Raise conv e)); VList [flags h1]; VInt 0]
+        | Val _ =>
+            let res := fold_left (fun acc op => let hr := follow_step fc (fst acc) op in (hr, snd acc ++ [flags (fst hr)]))
+                                 fol ((h1, R), [flags h1]) in
+            VList [VInt 0; VList (snd res); vbool (existsb (fun a => Nat.ltb a (length h0)) R)]
+        end
+    end.
+
+(* C10 on one history: no input changed at any step and the result shares no Record object with an input *)
+Definition P_C10 (o : val) : bool :=
+  match o with
+  | VList [VInt c; VList st; VInt sh] =>
+      Z.eqb sh 0 && forallb (fun s => match s with VList fl => forallb (val_eqb (VInt 1)) fl | _ => false end) st
+  | _ => false end.
+
 Definition run_heap (case obs : val) : val :=
   match case with
   | VList [VList [ins; op; ss; ps; ft]; VInt nsteps; VInt is_discover; VList [follow; _]] =>
       match decode_rcase (VList [ins; op; ss; ps; ft]), as_list_of as_follow follow with
       | Some k, Some fol =>
-          let fc := fold_of (rc_fold k) in
           match input_convs k with
           | Raise _ => VList [VInt (-3)]
           | Val cs =>
-              (* the records of each input in the order its converter holds them *)
-              let ins' := map recs cs in
-              let h0 := concat ins' in
-              let Cs := layout ins' 0 in
-              let flags := fun h => VList (map (fun C => vbool (records_eqb (view h C) (view h0 C))) Cs) in
-              let m :=
-                if negb (Z.eqb is_discover 0) then
-                  (* discover only reads its converter and creates new records: every follow-up works on fresh cells *)
-                  let res := fold_left (fun acc op => let hr := follow_step fc (fst acc) op in (hr, snd acc ++ [flags (fst hr)]))
-                                       fol ((h0, []), [flags h0]) in
-                  VList [VInt 0; VList (snd res); VInt 0]
-                else
-                  match h_derive fc k h0 Cs cs with
-                  | Raise e => VList [VInt (derive_code (@Raise conv e)); VList [flags h0]; VInt 0]
-                  | Val (h1, R) =>
-                      match mk_conv true [58%N] (view h1 R) with
-                      | Raise e => VList [VInt (derive_code (@Raise conv e)); VList [flags h1]; VInt 0]
-                      | Val _ =>
-                          let res := fold_left (fun acc op => let hr := follow_step fc (fst acc) op in (hr, snd acc ++ [flags (fst hr)]))
-                                               fol ((h1, R), [flags h1]) in
-                          VList [VInt 0; VList (snd res); vbool (existsb (fun a => Nat.ltb a (length h0)) R)]
-                      end
-                  end in
+              let m := model_hobs k cs fol (negb (Z.eqb is_discover 0)) in
               let same := val_eqb m obs in
-              let P := fun o => match o with
-                                | VList [VInt c; VList st; VInt sh] =>
-                                    Z.eqb sh 0 && forallb (fun s => match s with VList fl => forallb (val_eqb (VInt 1)) fl | _ => false end) st
-                                | _ => false end in
-              VList [vbool same; vbool (valid_r k || negb (Z.eqb is_discover 0)); vbool (P m); vbool (P obs); if same then VList [] else m]
+              VList [vbool same; vbool (valid_r k || negb (Z.eqb is_discover 0)); vbool (P_C10 m); vbool (P_C10 obs); if same then VList [] else m]
           end
       | _, _ => VList [VInt (-1)]
       end
